@@ -68,7 +68,8 @@ class ProgBase(nn.Module):
         locals_[s[1]] = self.perturb(s[2], ev(s[3], locals_, x))
       elif k == 'rng':
         key = self.make_rng(s[1])
-        TRACE.append(('key', list(self.path), s[1], kd(key)))
+        if not isinstance(key, jax.core.Tracer):
+          TRACE.append(('key', list(self.path), s[1], kd(key)))
       elif k == 'let':
         locals_[s[1]] = ev(s[2], locals_, x)
       elif k == 'child':
